@@ -192,7 +192,7 @@ def create_patch_centers(
         A new set of angular coordinates of the patch centers.
     """
     if probe_size < 10 * patch_num:
-        probe_size = int(100_000 * np.sqrt(patch_num))
+        probe_size = min(int(100_000 * np.sqrt(patch_num)), reader.num_records)
     if parallel.on_root():
         logger.info(
             "computing patch centers from subset of %s records",
